@@ -105,6 +105,7 @@ def known_functions():
 class Interp:
     """Interpret one function body into terms + events."""
     _depth_glob = 0
+    _comp_stack: list = []
 
 
     MAX_UNROLL = 16
@@ -169,6 +170,9 @@ class Interp:
     def emit(self, kind: str, node: ast.AST, **data) -> Event:
         if kind == "return" and self._inlined:
             kind = "inl_return"          # a return of a helper interpreted in place: not a return of the analysed function
+        if self._comp_stack:
+            # evaluated once per element of a comprehension: the generators (variable, iterable) it sits under
+            data = dict(data, in_comp=tuple(self._comp_stack))
         ev = Event(kind, node, tuple(self._loopstack), tuple(self._guards), data, next(self._seq))
         self.events.append(ev)
         if kind in ("return", "inl_return"):
@@ -824,6 +828,7 @@ class Interp:
         saved = dict(self.env)
         gterms = []
         uid = next(self._uid)
+        pushed_ = 0
         for g in gens:
             it = self.expr(g.iter)
             tgt_names = [x.id for x in ast.walk(g.target) if isinstance(x, ast.Name)]
@@ -838,9 +843,14 @@ class Interp:
                         for x in ast.walk(e):
                             if isinstance(x, ast.Name):
                                 self.env[x.id] = ("cvar", uid, x.id)
+            self._comp_stack = self._comp_stack + [(cv, it)]
+            pushed_ += 1
             conds = tuple(self.expr(c) for c in g.ifs)
             gterms.append((cv, it, conds))
-        elt = tuple(self.expr(e) for e in elts)
+        try:
+            elt = tuple(self.expr(e) for e in elts)
+        finally:
+            self._comp_stack = self._comp_stack[:len(self._comp_stack) - pushed_]
         self.env = saved
         return ("comp", kind, elt if len(elt) > 1 else elt[0], tuple(gterms))
 
